@@ -190,12 +190,24 @@ impl Dev {
 
 pub fn single_devs(cfg: &Value, small: bool) -> Vec<Dev> {
     let mut out = Vec::new();
+    // field fractions: values whose PRODUCT with another number of the configuration is small modulo p
+    // (1/2, 1/3, 1/4, k / blow-up exponent, k / query count) - huge as integers
+    let num = |k: &str| cfg.get(k).and_then(|v| v.as_str()).and_then(|h| Felt::from_hex(h).ok()).and_then(|f| f.inverse());
+    let mut fractions: Vec<Felt> = [2u64, 3, 4].iter().filter_map(|k| fu(*k).inverse()).collect();
+    for inv in [num("log_n_cosets"), num("n_queries")].into_iter().flatten() {
+        fractions.push(inv);
+        fractions.push(inv * fu(20));
+        fractions.push(inv * fu(48));
+    }
     for leaf in jw::leaves(cfg) {
         let ps = jw::path_str(&leaf);
         match jw::get(cfg, &leaf).unwrap() {
             Value::String(s) => {
                 let v = Felt::from_hex(s).expect("felt leaf");
-                let menu = if small { felt_menu_small(&v) } else { felt_menu(&v) };
+                let mut menu = if small { felt_menu_small(&v) } else { felt_menu(&v) };
+                if !small {
+                    menu.extend(fractions.iter().filter(|f| **f != v).cloned());
+                }
                 for m in menu {
                     out.push(Dev::Set(ps.clone(), Value::String(fhex(&m))));
                 }
